@@ -23,6 +23,8 @@ MEMBERS = [
     ("cnfgen.families.ramsey", "PythagoreanTriples"),
     ("cnfgen.families.ramsey", "RamseyNumber"),
     ("cnfgen.families.ramsey", "VanDerWaerden"),
+    ("cnfgen.families.ramsey", "_vdw_ap_generator"),
+    ("cnfgen.families.pebbling", "_uniqify_list"),
 ]
 
 DELEGATES = [
